@@ -131,7 +131,16 @@ impl<'t, 'a> SynGen<'t, 'a> {
     }
 
     pub fn lit(&mut self) -> Lit {
-        match self.t.weighted(&[6, 4, 1, 1, 1, 1]) {
+        match self.t.weighted(&[6, 4, 1, 1, 1, 1, 2]) {
+            6 => {
+                // a full-precision decimal: 53 random mantissa bits scaled by a power of ten, written with the 16-17
+                // digits that denote exactly this number (no shortcut through a small integer mantissa)
+                let m = ((self.t.raw() as u64) << 21) | ((self.t.raw() as u64) >> 11);
+                let k = self.t.pick(10) as i32 - 3;
+                let v = (m as f64 / 9007199254740992.0) * 10f64.powi(k);
+                let v: f64 = format!("{}", v).parse().unwrap();
+                Lit::Num(v)
+            }
             0 => Lit::Num(*self.t.choose(NUMS)),
             1 => Lit::Str(self.t.choose(STRS).to_string()),
             2 => Lit::Bool(true),
